@@ -18,7 +18,8 @@
    an enclosing comprehension only if a `for` clause binding x precedes it
    (`U` below is the list of the variables in scope that are not yet bound;
    expressions inside the target of a `for` clause are checked before the
-   clause's own names are bound).  Under the specification an undominated use
+   clause's own names are bound; the second body expression, which only a
+   dict comprehension evaluates, is checked in list comprehensions too).  Under the specification an undominated use
    is a dynamic error; the real code reads the slot's value from a previous
    evaluation.
    No proofs in this file. *)
@@ -73,7 +74,7 @@ Section Ok2.
             let used' := slots ++ used in
             let okc := fix okc (U1 : list string) (l : list clause) {struct l} : bool :=
                   match l with
-                  | [] => ok_expr2 U1 used' body && (if curly then ok_expr2 U1 used' bodyv else true)
+                  | [] => ok_expr2 U1 used' body && ok_expr2 U1 used' bodyv
                   | CIf c :: r => ok_expr2 U1 used' c && okc U1 r
                   | CFor t1 e1 _ :: r =>
                       ok_expr2 U1 used' e1 && ok_target2 U1 used' t1
@@ -105,7 +106,7 @@ Section Ok2.
     Variables body bodyv : expr.
     Fixpoint ok_cls (U1 : list string) (l : list clause) {struct l} : bool :=
       match l with
-      | [] => ok_expr2 U1 used' body && (if curly then ok_expr2 U1 used' bodyv else true)
+      | [] => ok_expr2 U1 used' body && ok_expr2 U1 used' bodyv
       | CIf c :: r => ok_expr2 U1 used' c && ok_cls U1 r
       | CFor t1 e1 _ :: r =>
           ok_expr2 U1 used' e1 && ok_target2 U1 used' t1
@@ -148,7 +149,7 @@ Definition ok_fundef2 (fd : fundef) : bool :=
 
 Definition ok_prog2 (p : program) : bool := forallb (ok_stmt2 [] (layout_top p)) (p_body p).
 
-(* THE FRAGMENT (a superset of Frag.in_fragment, see ProofsCompMain.in_fragment_sub) *)
+(* THE FRAGMENT (a superset of Frag.in_fragment, see ProofsCompSub.in_fragment_sub) *)
 Definition in_fragment2 (p : program) : bool := ok_prog2 p && flat_prog p.
 
 Definition funs_ok2 (p : program) : Prop :=
